@@ -185,6 +185,9 @@ func leakReport(before map[string]string) string {
 // whatever can still run runs, and then no library goroutine may remain.
 func (s *Sim) finish(before map[string]string) {
 	s.ended = true
+	if wireProbe != nil {
+		wireProbe(s)
+	}
 	s.stats.Steps = s.step
 	capped := s.stats.HitCap
 	s.tracef("--- end of program (step cap hit: %v) ---", capped)
